@@ -92,7 +92,20 @@ func (c CurlyRouter) matchesRouteByPathTokens(routeTokens, requestTokens []strin
 				if matchesRemainder {
 					break
 				}
+			} else if closing := strings.Index(routeToken, "}"); closing != -1 && closing < len(routeToken)-1 {
+				// literal suffix after the variable, e.g. {var}.json
+				suffix := routeToken[closing+1:]
+				if len(requestToken) < len(suffix) || !strings.HasSuffix(requestToken, suffix) {
+					return false, 0, 0
+				}
 			}
+		} else if opening, closing := strings.Index(routeToken, "{"), strings.LastIndex(routeToken, "}"); opening > 0 && closing > opening && strings.Index(routeToken, ":") == -1 {
+			// literal prefix (and maybe suffix) around the variable, e.g. prefix{var}
+			prefix, suffix := routeToken[:opening], routeToken[closing+1:]
+			if len(requestToken) < len(prefix)+len(suffix) || !strings.HasPrefix(requestToken, prefix) || !strings.HasSuffix(requestToken, suffix) {
+				return false, 0, 0
+			}
+			paramCount++
 		} else { // no { prefix
 			if requestToken != routeToken {
 				return false, 0, 0
